@@ -72,6 +72,20 @@ CHECKS = {
         "Trusted: the command -> rule-id-prefix table and the language lists from the docs. Foreign settings use valid values only (invalid values are C05's subject).",
         "DESIGN.md section 3 / C15",
     ),
+    "C04": (
+        "model_checking",
+        "full matrix linter x language x directive form x rule-name spelling x placement on the real CLI with an edge oracle (before/after inserting the directive, line-shift aware)",
+        "For every linter and language of the catalog the documented violating example (plus a probe function carrying other linters' violations) is linted before and after inserting each directive form (same-line, ignore-next-line, ignore-start/end, ignore-file in line 1 and in line 11+, .thailintignore, top-level ignore, linter-level ignore) in every rule-name spelling (full id, prefix, prefix.*, deprecated alias, upper case, bare) at every placement (on each violation, on a violation-free line, naming another linter). after must equal shift(before - scope) and the other linter's findings must be unchanged. The matrix is finite and taken in full.",
+        "Trusted: the scope model from the documentation; comment style by language. lazy-ignores exempt; file-header / file-placement / dry restricted to the forms whose scope is defined for them (see module docstring).",
+        "DESIGN.md section 3 / C04",
+    ),
+    "C09": (
+        "model_checking",
+        "relocation/respelling edges: full product of parent-directory names x depth x working directories x target spellings x commands (+ library API) against a baseline run",
+        "One multi-language project (documented violating examples, tests/ sub-directory, repository and linter-level ignore patterns) is placed under every parent name of the alphabet (every built-in excluded directory name and every test-marker substring) one and two levels up, linted from four working directories with every spelling of directory and file targets by every command and by Linter.lint; every run must equal the baseline up to path spelling.",
+        "Trusted: path normalisation (reported file made project-relative; quoted paths in messages likewise). Project root is marked by .git inside the project.",
+        "DESIGN.md section 3 / C09",
+    ),
 }
 
 NOT_APPLICABLE: dict[str, str] = {}
